@@ -593,10 +593,22 @@ func RunC06(t *Trace, st *Stats) *Violation {
 			every = b
 		}
 	}
-	cr.everySecondTorn = every || (t.Crash != nil && !t.Crash.All)
+	cr.everySecondTorn = every
 	if t.Crash != nil && !t.Crash.All {
+		// one recorded crash point: every stage is judged (the search judges the second, torn crash only at
+		// one point in three). An earlier stage's symptom can then hide the recorded one, so when the
+		// trace records a signature and the full judgement shows another, the point is judged again with
+		// the stages the search used, and the recorded symptom is preferred.
 		st.Evals++
-		return cr.judge(cr.imageAt(t.Crash.K, t.Crash.J), t.Crash.K, t.Crash.J, cont, st)
+		cr.everySecondTorn = true
+		v := cr.judge(cr.imageAt(t.Crash.K, t.Crash.J), t.Crash.K, t.Crash.J, cont, st)
+		if t.Sig != "" && (v == nil || v.Sig != t.Sig) && !every {
+			cr.everySecondTorn = false
+			if v2 := cr.judge(cr.imageAt(t.Crash.K, t.Crash.J), t.Crash.K, t.Crash.J, cont, st); v2 != nil && v2.Sig == t.Sig {
+				return v2
+			}
+		}
+		return v
 	}
 	var first *Violation
 	seenSig := map[string]bool{}
